@@ -223,7 +223,9 @@ impl MqttShared {
     ) -> Result<(), EncodeError> {
         self.check_streaming()?;
         self.enable_streaming(&pkt, payload.as_ref());
-        self.io.encode(Encoded::Publish(pkt, payload), &self.codec)
+        self.io
+            .encode(Encoded::Publish(pkt, payload), &self.codec)
+            .inspect_err(|_| self.streaming_remaining.set(None))
     }
 
     pub(super) fn encode_publish_payload(&self, payload: Bytes) -> Result<bool, EncodeError> {
@@ -429,12 +431,12 @@ impl MqttShared {
         payload: Option<Bytes>,
     ) -> Result<pool::Receiver<Ack>, SendPacketError> {
         self.check_streaming()?;
-        self.enable_streaming(&pkt, payload.as_ref());
 
         let mut queues = self.queues.borrow_mut();
         if queues.inflight_ids.contains(&id) {
             Err(SendPacketError::PacketIdInUse(id))
         } else {
+            self.enable_streaming(&pkt, payload.as_ref());
             match self.io.encode(Encoded::Publish(pkt, payload), &self.codec) {
                 Ok(()) => {
                     let (tx, rx) = self.pool.queue.channel();
@@ -442,7 +444,10 @@ impl MqttShared {
                     queues.inflight_ids.insert(id);
                     Ok(rx)
                 }
-                Err(e) => Err(SendPacketError::Encode(e)),
+                Err(e) => {
+                    self.streaming_remaining.set(None);
+                    Err(SendPacketError::Encode(e))
+                }
             }
         }
     }
@@ -456,12 +461,12 @@ impl MqttShared {
         payload: Option<Bytes>,
     ) -> Result<(), SendPacketError> {
         self.check_streaming()?;
-        self.enable_streaming(&pkt, payload.as_ref());
 
         let mut queues = self.queues.borrow_mut();
         if queues.inflight_ids.contains(&id) {
             Err(SendPacketError::PacketIdInUse(id))
         } else {
+            self.enable_streaming(&pkt, payload.as_ref());
             match self.io.encode(Encoded::Publish(pkt, payload), &self.codec) {
                 Ok(()) => {
                     assert!(
@@ -472,7 +477,10 @@ impl MqttShared {
                     queues.inflight_ids.insert(id);
                     Ok(())
                 }
-                Err(e) => Err(SendPacketError::Encode(e)),
+                Err(e) => {
+                    self.streaming_remaining.set(None);
+                    Err(SendPacketError::Encode(e))
+                }
             }
         }
     }
